@@ -185,7 +185,8 @@ def j_of_py(x):
     if isinstance(x, (list, tuple)):
         return [j_of_py(v) for v in x]
     if isinstance(x, dict):
-        return {'d': [[k, j_of_py(v)] for k, v in x.items()]}
+        # a key that is not a string is not JSON-shaped (a defect of the writer if it occurs): kept visible, and printable
+        return {'d': [[k if isinstance(k, str) else {'nonstr_key': repr(k)}, j_of_py(v)] for k, v in x.items()]}
     raise TypeError(f'not JSON-shaped: {type(x).__name__}')
 
 
@@ -611,6 +612,24 @@ def directed_values():
             yield 'codec_same_name_two_registries', {'t': 'dict', 'k': pair[:2], 'v': pair[:2][::-1]}
         yield 'codec_same_name_two_registries', {'t': 'obj', 'cls': 'votelib.evaluate.threshold.AbsoluteThreshold',
                                                  'p': [['threshold', {'t': 'tuple', 'v': pair}], ['accept_equal', {'t': 'list', 'v': pair[::-1]}]]}
+    # mappings whose keys mix types: str with int / None / bool / tuple / Fraction, int with None, ... — the typed form is needed as soon
+    # as ONE key is not a string (seeded change C19l: any(...) for all(...))
+    S = lambda v: {'a': 'str', 'v': v}                                       # noqa: E731
+    I = lambda v: {'a': 'int', 'v': str(v)}                                  # noqa: E731
+    none, true = {'a': 'none'}, {'a': 'bool', 'v': True}
+    tup = {'t': 'tuple', 'v': [S('x'), I(1)]}
+    fr = {'t': 'frac', 'v': '1/2'}
+    thr = {'t': 'obj', 'cls': 'votelib.evaluate.threshold.RelativeThreshold', 'p': [['threshold', {'t': 'frac', 'v': '1/10'}], ['accept_equal', {'a': 'bool', 'v': True}]]}
+    for keys in ([S('minority'), I(2)], [I(2), S('minority')], [S('minority'), none], [none, S('a'), S('b')], [S('a'), true], [S('a'), tup],
+                 [S('a'), fr], [I(1), none], [I(0), true, none], [S('2'), I(2)], [S('null'), none], [S('a'), I(1), none, tup, fr],
+                 [S('a'), S('b'), S('c'), I(3)], [tup, S('x')]):
+        vals = [thr if i % 2 else none for i in range(len(keys))]
+        d = {'t': 'dict', 'k': keys, 'v': vals}
+        yield 'codec_mixed_keys', d
+        yield 'codec_mixed_keys', {'t': 'list', 'v': [d]}
+        yield 'codec_mixed_keys', {'t': 'dict', 'k': [S('inner')], 'v': [d]}
+        yield 'codec_mixed_keys', {'t': 'obj', 'cls': 'votelib.evaluate.threshold.PropertyBracketer',
+                                   'p': [['property', S('kind')], ['evaluators', d], ['default', thr]]}
     yield 'codec_wide', {'t': 'list', 'v': [{'a': 'int', 'v': str(i * i)} for i in range(300)]}
     yield 'codec_wide', {'t': 'dict', 'k': [{'a': 'str', 'v': f'key{i}'} for i in range(80)], 'v': [{'t': 'frac', 'v': _fs(Fraction(i, 7))} for i in range(80)]}
     yield 'codec_wide', {'t': 'dict', 'k': [{'a': 'int', 'v': str(i)} for i in range(80)], 'v': [{'t': 'dec', 'v': f'{i}.5'} for i in range(80)]}
